@@ -253,12 +253,19 @@ func (c *Ctx) sourceBoc() {
 	}
 	n := 0
 	okAll := true
-	for _, a := range f.AnonFuncs {
+	// the lazy closures: created in UnmarshalTLB itself or in an unexported helper it calls with the cell
+	// (plainSourceBoc(c)); the captured cell is the closure's free variable of cell type, whatever its name
+	var closures []*ssa.Function
+	for _, g := range c.deepFns(f) {
+		closures = append(closures, g.AnonFuncs...)
+	}
+	for _, a := range closures {
 		n++
-		// free variable c (the parameter) is reset and then serialised
+		// the captured cell (the parameter) is reset and then serialised
 		var fv ssa.Value
 		for _, v := range a.FreeVars {
-			if v.Name() == "c" {
+			t := strings.TrimLeft(v.Type().String(), "*")
+			if strings.HasSuffix(t, "boc.Cell") {
 				fv = v
 			}
 		}
